@@ -182,7 +182,11 @@ func (e *Env) replayOnce(bin, variant string, rf *replay.File, tape Tape, extraE
 		return nil, nil, err
 	}
 	defer os.Remove(p)
-	j := &Job{Bin: bin, Variant: variant, World: rf.World, Prop: rf.Prop, From: rf.Idx, N: 1, Extra: []string{"-replay", p}, Env: extraEnv, Timeout: 5 * time.Minute}
+	procs := rf.Procs
+	if procs == 0 {
+		procs = 1
+	}
+	j := &Job{Bin: bin, Variant: variant, World: rf.World, Prop: rf.Prop, From: rf.Idx, N: 1, Procs: procs, Extra: []string{"-replay", p}, Env: extraEnv, Timeout: 5 * time.Minute}
 	e.runJob(j)
 	if j.Err != nil {
 		return nil, j, j.Err
@@ -198,7 +202,7 @@ var trialCounter int64
 // minimiseAndReport shrinks a violating run, verifies the replay in a fresh
 // process and writes the replay file.  Returns the replay path.
 func (e *Env) minimiseAndReport(prop, bin, variant string, r *kernel.Result, v kernel.Violation, budget time.Duration) (string, kernel.Violation, error) {
-	rf := &replay.File{Depth: e.Depth, Property: prop, World: r.World, Prop: r.Prop, Variant: variant, VerifSeed: r.VerifSeed, Idx: r.Idx, Violation: v, Cfg: r.Cfg, Tape: r.Tape, Trace: r.Trace}
+	rf := &replay.File{Depth: e.Depth, Procs: ProcsFor(r.JobFrom), Property: prop, World: r.World, Prop: r.Prop, Variant: variant, VerifSeed: r.VerifSeed, Idx: r.Idx, Violation: v, Cfg: r.Cfg, Tape: r.Tape, Trace: r.Trace}
 	if rf.Tape == nil {
 		return "", v, harnessErr("violating run carries no tape")
 	}
@@ -271,7 +275,7 @@ attempts:
 			if x.Property == v.Property && x.Class == v.Class {
 				n0, _ := tapeSize(canon)
 				n1, _ := tapeSize(small)
-				final = &replay.File{Depth: e.Depth, Property: prop, World: r.World, Prop: r.Prop, Variant: variant, VerifSeed: r.VerifSeed, Idx: r.Idx, Prefix: rf.Prefix, Minimised: true, Violation: x, Cfg: res.Cfg, Tape: res.Tape, Trace: res.Trace,
+				final = &replay.File{Depth: e.Depth, Procs: rf.Procs, Property: prop, World: r.World, Prop: r.Prop, Variant: variant, VerifSeed: r.VerifSeed, Idx: r.Idx, Prefix: rf.Prefix, Minimised: true, Violation: x, Cfg: res.Cfg, Tape: res.Tape, Trace: res.Trace,
 					Note: fmt.Sprintf("minimised from %d to %d recorded choices in %d trials; replay with: ./check --replay <this file>", n0, n1, trials)}
 				v = x
 			}
